@@ -613,7 +613,7 @@ func c19GenHist(rng *rand.Rand, tier string, emit func(string)) {
 
 	n := 350
 	if tier == "thorough" {
-		n = 2500
+		n = 1500
 	}
 	for i := 0; i < n; i++ {
 		var k int
@@ -752,7 +752,7 @@ func c19GenHist(rng *rand.Rand, tier string, emit func(string)) {
 	// ---- KmerMap histories
 	nk := 120
 	if tier == "thorough" {
-		nk = 800
+		nk = 500
 	}
 	for i := 0; i < nk; i++ {
 		w := []int{64, 128, 128, 256}[rng.Intn(4)]
